@@ -1063,18 +1063,28 @@ func ruleStopClosesWhatIsOpen(c *Ctx, rid string) {
 			if !cc.IsInvoke() && len(cc.Args) > 0 {
 				recv = cc.Args[0]
 			}
-			owner, f, _, ok := fieldOf(recv)
-			if !ok || owner != "redis.Server" {
+			fs, ok := fieldsBehind(recv)
+			if !ok || !strings.HasPrefix(fs[0], "redis.Server.") {
 				return
 			}
-			n++
+			sort.Strings(fs)
+			n += len(fs)
+			f := strings.ReplaceAll(strings.Join(fs, "+"), "redis.Server.", "")
 			key := fmt.Sprintf("%s/close:%s", fnName(fn), f)
 			bad := ""
 			for _, at := range factsAt(ins.Block()) {
 				switch at.Kind {
 				case "nil":
-					if _, f2, _, ok := fieldOf(at.X); ok && strings.Contains(strings.ToLower(f2), "listener") {
-						continue
+					if fs2, ok := fieldsBehind(at.X); ok {
+						all := true
+						for _, f2 := range fs2 {
+							if !strings.Contains(strings.ToLower(f2), "listener") {
+								all = false
+							}
+						}
+						if all {
+							continue
+						}
 					}
 					if isErrorType(at.X.Type()) {
 						continue
@@ -1089,6 +1099,9 @@ func ruleStopClosesWhatIsOpen(c *Ctx, rid string) {
 						bad = "a boolean that is not a test of the listener"
 					}
 				case "eq", "lt", "le":
+					if at.Kind != "eq" && localCounter(at.X, 0) && localCounter(at.Y, 0) {
+						continue // the bookkeeping of a loop over a local table of listeners
+					}
 					bad = "a comparison of values other than the listener"
 				}
 			}
